@@ -243,7 +243,38 @@ def as_sequence(eng, v):
         return n, lambda k: (eng.snum(k.z + v.start, "int"), g(k))
     if isinstance(v, Opaque) and "__iter_seq__" in v.proto:
         return v.proto["__iter_seq__"](eng, v)
+    if isinstance(v, _DictItems) and v.d.items is None:
+        return dict_enumeration(eng, v.d)
     raise Unsupported(f"symbolic iteration over {type(v).__name__}")
+
+
+def dict_enumeration(eng, d):
+    """Iteration over the items of a symbolic dict: a ghost enumeration ks[0..m) of its keys
+    (each key of the domain exactly once; the order is left unconstrained, which is weaker
+    than CPython's insertion order and therefore sound for any order-independent client).
+    The enumeration is recorded in eng.ghost[("dictkeys", d.uid)] = (ks, m, pos)."""
+    key = ("dictkeys", d.uid, d.dom.get_id())
+    if key not in eng.ghost:
+        tag = fresh_name("ks")
+        ks = z3.Function(tag, z3.IntSort(), z3.IntSort())
+        pos = z3.Function(tag + "_pos", z3.IntSort(), z3.IntSort())
+        m = z3.Int(tag + "_m")
+        j, q = z3.Int("j_" + tag), z3.Int("q_" + tag)
+        eng.assume(m >= 0)
+        eng.assume(z3.ForAll([j], z3.Implies(z3.And(j >= 0, j < m), z3.And(z3.Select(d.dom, ks(j)), pos(ks(j)) == j)), patterns=[ks(j)]))
+        eng.assume(z3.ForAll([q], z3.Implies(z3.Select(d.dom, q), z3.And(pos(q) >= 0, pos(q) < m, ks(pos(q)) == q)), patterns=[pos(q)]))
+        eng.ghost[key] = (ks, m, pos)
+        eng.ghost[("dictkeys", d.uid)] = eng.ghost[key]
+        eng.assumptions.add("dict-model: items() enumerates every key of the domain exactly once (order unconstrained)")
+    ks, m, pos = eng.ghost[key]
+
+    def g(k):
+        kk = Sym(ks(k.z), "int")
+        if d.vkind == "intlist":
+            return (kk, DictListRef(d, kk))
+        return (kk, Sym(z3.Select(d.val, kk.z), d.vkind))
+
+    return m, g
 
 
 def _lenz(n):
